@@ -20,7 +20,7 @@ CONSTANT Dev
 
 FLen(k) == CASE k = "pt" -> 48 [] k = "sc" -> 32 [] k = "pk" -> 96 [] k = "pku" -> 192 [] OTHER -> 0
 
-Codecs == {"public_key", "pk_coords", "secret_key", "blind_factor", "signature", "proof", "commitment", "zkpok"}
+Codecs == {"public_key", "pk_coords", "secret_key", "blind_factor", "message_scalar", "signature", "proof", "commitment", "zkpok"}
 Variable(c) == c \in {"proof", "commitment", "zkpok"}           \* encodings with a variable number of scalars
 
 \* the field kinds of an encoding with n variable scalars ("scs" expanded)
